@@ -68,7 +68,7 @@ Render(b) == IF b.fin = "hid" THEN <<>> ELSE RenderFrom(Tpl(b.tpl), 1, <<>>, <<>
 (* ------------------------------ state ---------------------------------- *)
 SInit(w, h, multi, mphid, align) ==
     [w |-> w, h |-> h, multi |-> multi, mphid |-> mphid, align |-> align,
-     above |-> <<>>, order |-> <<>>, bars |-> <<>>, ids |-> {}, bottom |-> 0, everBottom |-> align = "bottom", blanked |-> FALSE, faulty |-> FALSE]
+     above |-> <<>>, order |-> <<>>, bars |-> <<>>, ids |-> {}, bottom |-> 0, everBottom |-> align = "bottom", blanked |-> FALSE, faulty |-> FALSE, wasCut |-> FALSE]
 
 NewBar(r, vis, inmp) ==
     [tpl |-> r.tpl, msg |-> r.m0, prefix |-> r.p0, pos |-> r.pos0, len |-> r.len, fin |-> "no",
